@@ -180,7 +180,7 @@ def monitors(run):
         if op[0] == "complete":
             mine = [m for pos, m in puts if pos < inv and procs[m.split("-")[0]] == procs[tn]
                     and (sentinel_pos is None or pos < sentinel_pos)]
-            removed_before = any(op2[0] == "remove" and res2 == "ok" and procs[tn2] == procs[tn] and ret2 < inv
+            removed_before = any(op2[0] == "remove" and res2 == "ok" and procs[tn2] == procs[tn] and inv2 < ret
                                  for tn2, j2, op2, inv2, ret2, res2 in run.ops)
             for m in mine:
                 if m not in wends or wends[m] > ret:
@@ -325,12 +325,12 @@ def stream_sched(ctx):
             c = json.load(open(os.path.join(cdir, fn)))
             if c.get("stream", "sched") == "sched":
                 judge(Run(c["program"], sched.replay_chooser(c["schedule"])).execute(), c["program"], "corpus")
-    for pi in range(ctx.n(10, 120) * boost):
+    for pi in range(ctx.n(25, 120) * boost):
         prog = gen_program(rng.fork("p%d" % pi), ctx.quick)
         if pi < 2:
             ctx.sample({"stream": "sched", "program": prog})
-        dfs(prog, ctx.n(2, 3), ctx.n(20, 250), lambda r, prog=prog: judge(r, prog, "dfs"))
-    for i in range(ctx.n(100, 8000) * boost):
+        dfs(prog, ctx.n(2, 3), ctx.n(30, 250), lambda r, prog=prog: judge(r, prog, "dfs"))
+    for i in range(ctx.n(300, 8000) * boost):
         r2 = rng.fork("r%d" % i)
         prog = gen_program(r2, ctx.quick)
         judge(Run(prog, sched.random_chooser(r2, r2.choice([15, 35, 60]))).execute(), prog, "random")
